@@ -249,7 +249,7 @@ struct Driver {
       if (!r2.spawns.empty()) {
         std::string ids;
         for (auto& x : r2.spawns) ids += std::to_string(x.stmt) + " ";
-        w.Report("C02", "not_converged", "immediately after a successful build, run " + std::to_string(round + 1) + " of the same build started statements " + ids);
+        w.Report("C02", "not_converged", "immediately after a successful build, run " + std::to_string(round + 1) + " of the same build started statements " + ids + (getenv("SIM_SHOW_OUTPUT") ? " stderr=" + r2.res.err.substr(0, 1500) + " stdout=" + r2.res.out.substr(0, 3000) : ""));
         return;
       }
       if (r2.res.end != ProcResult::kExit || r2.res.exit_code != 0) {
@@ -636,6 +636,18 @@ struct Driver {
     InvRecord r = w.RunInvocation(p);
     Note(ResultText(r));
     if (getenv("SIM_SHOW_OUTPUT")) Note("  stdout: " + r.res.out + "\n  stderr: " + r.res.err);
+    if (getenv("SIM_TRACE")) {
+      std::string t;
+      for (const Ev& e : r.res.trace) {
+        if (e.kind == Ev::kSpawn) t += " spawn(" + std::to_string(e.b) + ")";
+        else if (e.kind == Ev::kChildExit) t += " exit(pid" + std::to_string(e.a) + ")";
+        else if (e.kind == Ev::kReap) { int st = -1; for (auto& x : r.spawns) if (x.pid == e.a) st = x.stmt; t += " reap(" + std::to_string(st) + ")"; }
+        else if (e.kind == Ev::kStdout) t += " out[" + e.s.substr(0, 24) + "]";
+        else if (e.kind == Ev::kFsRemove) t += " rm(" + e.s + ")";
+      }
+      Note("  trace:" + t);
+    }
+    if (getenv("SIM_DUMP_LOG")) { for (auto& kv : r.log_before.last) { auto o = r.log_after.last.find(kv.first); Note("   before " + kv.first + " h=" + std::to_string(kv.second.hash) + " m=" + std::to_string(kv.second.mtime) + " after " + (o == r.log_after.last.end() ? "absent" : std::to_string(o->second.hash) + " m=" + std::to_string(o->second.mtime))); } }
     if (getenv("SIM_DUMP_LOG")) { std::string lg; w.k.ReadFile(w.sc.LogDir() + ".ninja_log", &lg); Note("  .ninja_log:\n" + lg); }
     w.CheckAll(r);
     if (prof.small_graph && r.ok()) RecordSmallGraph(r);
@@ -748,15 +760,29 @@ struct Driver {
     for (auto& kv : after.files)
       if (!before.files.count(kv.first) && !IsLogPath(kv.first) && !rsp.count(kv.first)) w.Report("C19", "tool_mutated_world", what + " created " + kv.first);
     // the logs keep their meaning
+    // (a tool that opens the log may recompact it, exactly as the next build would; recompaction drops
+    // records of paths no statement of the manifest declares - stale names, garbage from a torn line,
+    // outputs only a dyndep file declares - so only declared outputs are compared)
+    std::set<std::string> declared;
+    for (const Stmt& s : w.sc.stmts) if (s.alive) for (auto& o : s.AllOuts()) declared.insert(o);
     auto same_log = [&](const BuildLogFold& a, const BuildLogFold& b) {
-      if (a.last.size() != b.last.size()) return false;
-      for (auto& kv : a.last) { auto o = b.last.find(kv.first); if (o == b.last.end() || o->second.hash != kv.second.hash || o->second.mtime != kv.second.mtime) return false; }
+      for (auto& kv : a.last) {
+        if (!declared.count(kv.first)) continue;
+        auto o = b.last.find(kv.first);
+        if (o == b.last.end() || o->second.hash != kv.second.hash || o->second.mtime != kv.second.mtime) return false;
+      }
+      for (auto& kv : b.last) if (!a.last.count(kv.first)) return false;
       return true;
     };
+    if (getenv("SIM_DUMP_LOG")) { for (auto& kv : r.log_before.last) { auto o = r.log_after.last.find(kv.first); Note("   before " + kv.first + " h=" + std::to_string(kv.second.hash) + " m=" + std::to_string(kv.second.mtime) + " after " + (o == r.log_after.last.end() ? "absent" : std::to_string(o->second.hash) + " m=" + std::to_string(o->second.mtime))); } }
+    if (getenv("SIM_DUMP_LOG")) { std::string lg; w.k.ReadFile(w.sc.LogDir() + ".ninja_log", &lg); Note("  after " + what + " .ninja_log (" + std::to_string(r.log_before.last.size()) + " -> " + std::to_string(r.log_after.last.size()) + " records, valid " + std::to_string(r.log_after.valid_header) + "):\n" + lg.substr(0, 600)); }
     if (r.log_before.valid_header && !same_log(r.log_before, r.log_after)) w.Report("C19", "tool_mutated_world", what + " changed the meaning of the build log");
     if (r.deps_before.valid_header) {
-      bool same = r.deps_before.last.size() == r.deps_after.last.size();
-      for (auto& kv : r.deps_before.last) { auto o = r.deps_after.last.find(kv.first); if (o == r.deps_after.last.end() || o->second.mtime != kv.second.mtime || o->second.deps != kv.second.deps) same = false; }
+      bool same = true;
+      std::set<std::string> with_deps;   // recompaction drops records of outputs whose statement has no `deps` any more
+      for (const Stmt& s : w.sc.stmts) if (s.alive && s.deps_kind >= 2) for (auto& o : s.AllOuts()) with_deps.insert(o);
+      for (auto& kv : r.deps_after.last) if (!r.deps_before.last.count(kv.first)) same = false;
+      for (auto& kv : r.deps_before.last) { if (!with_deps.count(kv.first)) continue; auto o = r.deps_after.last.find(kv.first); if (o == r.deps_after.last.end() || o->second.mtime != kv.second.mtime || o->second.deps != kv.second.deps) same = false; }
       if (!same) w.Report("C19", "tool_mutated_world", what + " changed the meaning of the deps log");
     }
     rr.stats.n["untouched_checks"]++;
@@ -1357,6 +1383,12 @@ struct Driver {
           }
           for (int c = 0; c < copies; c++) add += one;
           w.k.WriteFile(dp, db + add, true);
+          if (getenv("SIM_DEBUG_INFLATE")) {
+            DepsLogFold g = FoldDepsLog(db + add, true);
+            fprintf(stderr, "INFLATE deps: before total=%d last=%zu paths=%zu; after total=%d last=%zu clean=%d\n", f.total, f.last.size(), f.paths.size(), g.total, g.last.size(), (int)g.clean_eof);
+            for (auto& kv : f.last) { fprintf(stderr, "  %s mtime=%lld:", kv.first.c_str(), (long long)kv.second.mtime); for (auto& x : kv.second.deps) fprintf(stderr, " %s", x.c_str()); fprintf(stderr, "\n"); }
+            for (size_t i = 0; i < f.paths.size(); i++) fprintf(stderr, "  id %zu = %s\n", i, f.paths[i].c_str());
+          }
           if (note) Note("inflate .ninja_deps with " + std::to_string(copies) + " copies of its records");
           rr.stats.n["deps_inflated"]++;
         }
